@@ -51,7 +51,7 @@ FMT = ['textbf', 'emph', 'textit', 'text', 'textrm', 'textsc', 'mathrm']
 SYM = ['alpha', 'beta', 'Gamma', 'infty', 'times', 'ldots', 'S', 'ae', 'LaTeX', 'zzunknown', 'cdot', 'to', 'phi', 'ell',
        'epsilon']
 ACC = ["'", '`', '"', '^', '~', 'c', 'v', 'hat', 'bar', 'vec', 'dot', 'tilde']
-ACCSYM = ['alpha', 'phi', 'ell', 'epsilon', 'beta', 'Gamma']      # symbol macros used as accent arguments
+ACCSYM = ['alpha', 'phi', 'ell', 'epsilon', 'beta', 'Gamma', 'i', 'j', 'i', 'in', 'ne', 'o', 'ae']      # symbol macros used as accent arguments
 SPC = ['~', '--', '---', '``', "''", '&']
 CLOSE = {'$': '$', '\\(': '\\)', '$$': '$$', '\\[': '\\]'}
 
@@ -98,7 +98,8 @@ class G:
             if q < 0.70:
                 return ('acc', a, [('t', ''.join(r.choice('abeiouxyAE') for _ in range(r.randint(2, 3))))], False)
             if q < 0.90:
-                return ('acc', a, [('sym', r.choice(ACCSYM), '')], False)
+                # a symbol macro as argument, braced or as a single token directly after the accent (\\'\\i)
+                return ('acc', a, [('sym', r.choice(ACCSYM), '')], r.random() < 0.45)
             return ('acc', a, self.items(depth + 1, math), False)
         if k < 0.87:
             return ('frac', [self.txt()], [self.txt()]) if r.random() < 0.5 else ('sqrt', None if r.random() < 0.5 else [self.txt()], self.items(depth + 1, math))
@@ -135,7 +136,10 @@ def normalize(raw):
                 out[-1] = ('sym', prev[1], ' ')
             if prev[0] == 'spc' and it[0] == 'spc':
                 continue
-            if prev[0] == 'acc' and prev[3] and it[0] == 't':
+            if prev[0] == 'acc' and prev[3] and not isinstance(prev[2], str) and it[0] in ('t', 'w', 'par'):
+                # a control word as token argument would swallow the whitespace / join the letters: brace it instead
+                out[-1] = ('acc', prev[1], prev[2], False)
+            elif prev[0] == 'acc' and prev[3] and it[0] == 't':
                 out.append(('w', ' '))
         out.append(it)
     return out
@@ -160,6 +164,8 @@ def lay1(it):
     if k == 'sym':
         return '\\' + it[1] + it[2]
     if k == 'acc':
+        if it[3] and not isinstance(it[2], str):
+            return '\\' + it[1] + lay(it[2])
         if it[3]:
             return '\\' + it[1] + (' ' if it[1][-1].isalpha() else '') + it[2]
         return '\\' + it[1] + '{' + (it[2] if isinstance(it[2], str) else lay(it[2])) + '}'
